@@ -252,6 +252,12 @@ case("C18", "C18-b-noncapture", "benign", "filters wrapped in a non-capturing gr
 
 case("C18", "C18-seed2", "mutant", "seeded: platform digest cached under the index digest alone",
      patch="seeded/C18-2/patch.diff", expect=[("C18.R4", "getPlatformDigest", "store into cache")])
+case("C18", "C18-seed3", "mutant", "seeded: catalog paging helper returns the filtered page; end test and marker computed from it",
+     patch="seeded/C18-3/patch.diff", expect=[("C18.R6", "processRegistry", "marker pager")])
+case("C18", "C18-seed4", "mutant", "seeded: source tag listing shared between entries of one pass while filterList blanks rejected elements in place",
+     patch="seeded/C18-4/patch.diff", expect=[("C18.R5", "processRepo", "listing passed to filterList")])
+case("C18", "C18-b-sharedcopy", "benign", "the same shared listing, with filterList working on a copy",
+     patch="selftest/variants/C18-b-sharedcopy.diff")
 case("C18", "C18-b-platkey", "benign", "platform digest cached under index digest and platform string",
      patch="selftest/variants/C18-b-platkey.diff")
 
